@@ -2,6 +2,7 @@
 //! the op lines for the Lean model together with the implementation's canonical answers.
 mod admission;
 mod codegen;
+mod dialing;
 mod fabric;
 mod net;
 mod out;
@@ -19,12 +20,21 @@ use out::{Run, Tier};
 use std::path::PathBuf;
 
 fn main() -> anyhow::Result<()> {
+    // anyhow captures a backtrace into every error when RUST_BACKTRACE is set; anemo's pin-mismatch
+    // error then makes the QUIC close reason so long that quinn-proto 0.11.18 cannot fit the
+    // Handshake-space close packet behind the Initial one and re-sends the close datagram in a busy
+    // loop until its drain timer fires -- which never happens under a paused clock (see DESIGN §9).
+    std::env::set_var("RUST_BACKTRACE", "0");
+    std::env::set_var("RUST_LIB_BACKTRACE", "0");
     let a: Vec<String> = std::env::args().collect();
     if a.len() < 2 {
         eprintln!("usage: verif-harness <property> [--seed N] [--tier quick|thorough] [--work DIR] [--replay FILE]");
         std::process::exit(2);
     }
     let prop = a[1].clone();
+    if std::env::var("RUST_LOG").is_ok() {
+        tracing_subscriber::fmt().with_env_filter(tracing_subscriber::EnvFilter::from_default_env()).with_writer(std::io::stderr).init();
+    }
     if prop == "smoke" {
         return smoke::run();
     }
@@ -49,6 +59,7 @@ fn main() -> anyhow::Result<()> {
         "C18" => tower::run_c18(&mut run, replay.as_deref())?,
         "C19" => tower::run_c19(&mut run)?,
         "C20" => tower::run_c20(&mut run)?,
+        "C13" => dialing::run_c13(&mut run)?,
         "C15" => match replay.as_deref() {
             Some(r) => size::replay(&mut run, r)?,
             None => size::run_c15(&mut run)?,
